@@ -216,7 +216,7 @@ class GeminiClientProtocol(asyncio.Protocol):
                             break
                 try:
                     body = self.buffer.decode(charset)
-                except (UnicodeDecodeError, LookupError) as e:
+                except (ValueError, LookupError) as e:
                     self.response_future.set_exception(e)
                     return
             else:
@@ -458,7 +458,7 @@ class TitanClientProtocol(asyncio.Protocol):
                             break
                 try:
                     body = self.buffer.decode(charset)
-                except (UnicodeDecodeError, LookupError) as e:
+                except (ValueError, LookupError) as e:
                     self.response_future.set_exception(e)
                     return
             else:
